@@ -83,6 +83,11 @@ def main():
     out = E.handle(line)
     state["armed"] = False
     emit({"ev": "ack", "out": out})
+    # the store as the living server sees it once the answer is out (what a restart must find again)
+    try:
+        emit({"ev": "live-dump", "objs": E.dump()["objs"]})
+    except Exception as e:
+        emit({"ev": "live-dump", "error": "%s: %s" % (type(e).__name__, e)})
     if a.kill_at == "ack":
         os._exit(99)
     os._exit(0)
